@@ -491,6 +491,13 @@ ARRAY_MENU = {
 }
 
 
+def _strictly(v, ov, below):
+    """``v`` strictly below (above) ``ov``, from both operands' side and
+    with a margin far above conversion rounding."""
+    lo, hi = (v, ov) if below else (ov, v)
+    return bool(lo < hi) and bool(hi > lo) and bool(lo * (1 + 1e-9) < hi)
+
+
 def _veq(a, b):
     """Value equality that also works for array values: same shape and all
     elements equal."""
@@ -1950,9 +1957,12 @@ class Machine:
                         other = outer if f == inner else inner
                         try:
                             ov = getattr(obj, other)
+                            # (strictly ordered whichever side astropy
+                            # converts: comparisons across units are float
+                            # arithmetic and not antisymmetric at the ulp)
                             cand = [t for t in range(gen.KIND_SIZES[kind])
-                                    if (mk_value(kind, t) < ov if f == inner
-                                        else mk_value(kind, t) > ov)]
+                                    if _strictly(mk_value(kind, t), ov,
+                                                 f == inner)]
                         except Exception:
                             cand = []
                         if not cand:
@@ -1965,11 +1975,13 @@ class Machine:
                     if f in (inner, outer):
                         ov = getattr(obj, outer if f == inner else inner)
                         try:
-                            ok = bool(v < ov) if f == inner else bool(v > ov)
+                            ok = _strictly(v, ov, f == inner)
                         except Exception:
                             ok = False
                         if not ok:
                             v = mk_value(kind, tok)
+                            if not _strictly(v, ov, f == inner):
+                                return
                 value = f'{kind}:valid'
         elif c == 'order':
             inner, outer = rng.pick(gen.ANNULUS_PAIRS[cls])
@@ -1979,11 +1991,13 @@ class Machine:
                 if rng.chance(0.5):
                     f, ref = inner, getattr(obj, outer)
                     cand = [t for t in range(gen.KIND_SIZES[kind])
-                            if not (mk_value(kind, t) < ref)]
+                            if not (mk_value(kind, t) < ref)
+                            and not (ref > mk_value(kind, t))]
                 else:
                     f, ref = outer, getattr(obj, inner)
                     cand = [t for t in range(gen.KIND_SIZES[kind])
-                            if not (mk_value(kind, t) > ref)]
+                            if not (mk_value(kind, t) > ref)
+                            and not (ref < mk_value(kind, t))]
             except Exception:
                 return
             if not cand:
@@ -2615,11 +2629,13 @@ class Machine:
                 if rng.chance(0.5):
                     f, ref = inner, getattr(obj, outer)
                     cand = [t for t in range(gen.KIND_SIZES[kind])
-                            if not (mk_value(kind, t) < ref)]
+                            if not (mk_value(kind, t) < ref)
+                            and not (ref > mk_value(kind, t))]
                 else:
                     f, ref = outer, getattr(obj, inner)
                     cand = [t for t in range(gen.KIND_SIZES[kind])
-                            if not (mk_value(kind, t) > ref)]
+                            if not (mk_value(kind, t) > ref)
+                            and not (ref < mk_value(kind, t))]
             except Exception:
                 return
             if not cand:
